@@ -50,7 +50,7 @@ REQUIRED_ORACLES = [
     "table:basis_basisconjugate_T_sparse_from_1", "table:basishermitian_basis_T_from_1",
     "random_setting:gksl", "typical:hs=-i[H,.]",
 ]
-MIN_EVALS = {"quick": 4000, "thorough": 40000}
+MIN_EVALS = {"quick": 20000, "thorough": 150000}
 WATCHDOG = {"quick": 900, "thorough": 3600}
 ASSUMPTIONS = [
     "the matrix bases are orthonormal, Hermitian, identity-first (verified numerically per shard; quara requires it of an "
@@ -468,7 +468,7 @@ def install(ctx):
         phys = max(v["eq_hi"], v["ineq"]) <= 1e-12 * v["scale"]
         if phys:
             gv = gen.ref_violations(res)
-            ctx.num("to_gate:physical", max(gv["eq"], gv["ineq"]) / sc, TP, TF,
+            ctx.num("to_gate:physical", max(gv["eq"], gv["ineq"]) / max(sc, v["scale"]), TP, TF,
                     key="to_gate:gate-of-physical-generator-not-physical:" + ("tp" if gv["eq"] >= gv["ineq"] else "cp"), info=gv)
         pure("to_gate", snap, self)
 
